@@ -74,7 +74,23 @@ fn insert_toggles(p: &Prog, t: &mut Tape) -> Prog {
         ins.push((a, ctok(t.pick_str(ON), true, 0)));
     }
     ins.sort_by_key(|x| x.0);
+    // where do the toggles fall? (signatures of findings about regions that cut a statement)
+    let mut placement: Vec<&'static str> = vec![];
+    for (a, tok) in &ins {
+        if toggle::parse_toggle(&tok.text).is_none() {
+            continue;
+        }
+        let boundary = *a >= n || p.toks[*a].line_start || *a == 0;
+        placement.push(match (boundary, tok.line_start) {
+            (true, _) => "toggle:at-statement-boundary",
+            (false, true) => "toggle:own-line-mid-statement",
+            (false, false) => "toggle:inline-mid-statement",
+        });
+    }
     let mut out = Prog { toks: vec![], marks: vec![], tags: p.tags.clone() };
+    for pl in placement {
+        out.tags.insert(pl);
+    }
     let mut k = 0;
     for (i, tok) in p.toks.iter().enumerate() {
         while k < ins.len() && ins[k].0 == i {
